@@ -85,8 +85,7 @@ def body(chk: Check, *, mc_nodes: int, n_random: int, n_pairs: int, deep: int) -
         progs, exp, r = djc.mc_programs("scope", mode, mc_nodes)
         states += r.distinct
         trans += r.generated
-        obs = djc.real_variant(progs, probes=True)
-        st = djc.compare_batch(chk, progs, exp, obs, f"mc-scope-{mode}", extra_check=ctx_check)
+        st = djc.compare_sliced(chk, progs, exp, lambda ps: djc.real_variant(ps, probes=True), f"mc-scope-{mode}", extra_check=ctx_check)
         chk.add("mc_pages_replayed", len(progs))
         chk.add("mc_zone", st["zone"])
         mid = progs[len(progs) // 3]
@@ -142,7 +141,7 @@ def run(tier: str) -> int:
     if tier == "quick":
         body(chk, mc_nodes=3, n_random=1500, n_pairs=300, deep=3)
     else:
-        body(chk, mc_nodes=4, n_random=20000, n_pairs=3000, deep=4)
+        body(chk, mc_nodes=4, n_random=6000, n_pairs=1500, deep=4)
     chk.cov["exhaustive"] = True
     chk.cov["rule"] = ("TLC enumerates every page with <= N nodes over the 'scope' alphabet (colliding names between page "
                        "context, loop variables, with-bindings, kwargs, component data; `only`), x2 modes, each replayed with "
